@@ -1992,7 +1992,28 @@ func decodeValue(b []byte, colType SQLValueType, nullable bool) (TypedValue, int
 
 // addSchemaToTx adds the schema of the catalog to the given transaction.
 func (catlg *Catalog) addSchemaToTx(ctx context.Context, tx *store.OngoingTx) error {
-	return catlg.loadCatalog(ctx, tx, true)
+	err := catlg.loadCatalog(ctx, tx, true)
+	if err != nil {
+		return err
+	}
+
+	// sequences and views are catalog entries as well: without a copy their values are
+	// gone after truncation and the engine silently forgets them at the next start
+	for _, p := range []string{catalogSequencePrefix, catalogViewPrefix} {
+		prefix := MapKey(catlg.enginePrefix, p, EncodeID(DatabaseID))
+
+		err = iteratePrefix(ctx, tx, prefix, func(key, value []byte, deleted bool) error {
+			if deleted {
+				return nil
+			}
+			return tx.Set(key, nil, value)
+		})
+		if err != nil {
+			return err
+		}
+	}
+
+	return nil
 }
 
 func iteratePrefix(ctx context.Context, tx *store.OngoingTx, prefix []byte, onSpec func(key, value []byte, deleted bool) error) error {
